@@ -129,8 +129,20 @@ func (e *G) ScalarOp(s *F) *G    { return e.g.mkr(e.p.mul(s.p, e.g.f.q), rawMul(
 func (e *G) ScalarMul(s *F) *G   { return e.ScalarOp(s) }
 func (e *G) IsTorsionFree() bool { return true }
 
-func (e *G) IsOpIdentity() bool { return e.g.run.decide(simplifyEqZ(e.p)) }
-func (e *G) IsZero() bool       { return e.IsOpIdentity() }
+func (e *G) IsOpIdentity() bool {
+	r := e.g.run
+	if r.genericNonIdentity && !r.concrete && !e.p.isConst() {
+		// genericity mode (SetGenericNonIdentity): a symbolic point that is not syntactically the
+		// identity is taken to be non-identity; the literal is recorded in the path condition
+		r.mu.Lock()
+		r.GenericIdentityDecisions++
+		r.addPath(Not(simplifyEqZ(e.p)))
+		r.mu.Unlock()
+		return false
+	}
+	return r.decide(simplifyEqZ(e.p))
+}
+func (e *G) IsZero() bool { return e.IsOpIdentity() }
 func (e *G) IsDesignatedGenerator() bool {
 	return e.g.run.decide(simplifyEqZ(e.p.sub(polyConst(big.NewInt(1), e.g.f.q), e.g.f.q)))
 }
